@@ -17,11 +17,13 @@ func C01(c *Ctx) {
 	progs := ctlStream(c)
 	c.Rep.Rule = "directed + bounded-exhaustive + PRNG control-flow programs, each under every decision-tape path (depth-first over the bits the reference run asks for, capped) and the drain history + truncations; compared: projection of the trace onto MoveNext results and Current values (compiled vs reference coroutine). non-trivial = reference yields >= 2 values on some path; distinct = shape hash x tape."
 	RunE1(c, E1Spec{
-		Programs:    progs,
-		Opts:        e1.Opts{},
-		Kinds:       []string{"CR-values", "STUB"},
-		NonTrivial:  yields2,
-		MinDistinct: 2,
+		Programs: progs,
+		Opts:     e1.Opts{},
+		Kinds:    []string{"CR-values", "STUB"},
+		// a supported program the compiler does not accept delivers nothing at all
+		AcceptanceViolations: true,
+		NonTrivial:           yields2,
+		MinDistinct:          2,
 	})
 }
 
@@ -103,15 +105,17 @@ func C02(c *Ctx) {
 	ex, total, complete := genr.Exhaustive(nodes, capN, q, c.Seed)
 	progs = append(progs, ex...)
 	progs = append(progs, genr.Random(genr.Fx, nrand, c.Seed+1, q)...)
+	progs = append(progs, genr.Random(genr.Panic, nrand/3, c.Seed+4, q)...) // leading guards, panicking yield arguments: effects must not move to creation time
 	c.Rep.Set("exhaustive_shapes_total", total)
 	c.Rep.Set("exhaustive_shapes_complete", complete)
 	c.Rep.Rule = "effect-dense programs (variables mutated after being yielded, effects in every slot) under every decision-tape path and the histories drain / K=0,1,2,4 / 2 calls after exhaustion; compared: the FULL interleaved trace (consumer call/return markers + generator-side effects and expression evaluations) compiled vs reference coroutine, plus 'no event after the consumer stopped'. non-trivial = >= 2 yields on some path; distinct = shape hash x tape."
 	RunE1(c, E1Spec{
-		Programs:    progs,
-		Opts:        e1.Opts{Hist: []int{0, 1, 2, 4}, HistPaths: 4},
-		Kinds:       []string{"CR-full", "POSTSTOP", "STUB"},
-		NonTrivial:  yields2,
-		MinDistinct: 500,
+		Programs:             progs,
+		Opts:                 e1.Opts{Hist: []int{0, 1, 2, 4}, HistPaths: 4},
+		Kinds:                []string{"CR-full", "POSTSTOP", "STUB"},
+		AcceptanceViolations: true,
+		NonTrivial:           yields2,
+		MinDistinct:          500,
 	})
 }
 
@@ -149,6 +153,8 @@ func C07(c *Ctx) {
 	progs = append(progs, ex...)
 	progs = append(progs, genr.Random(genr.Fx, nrand, c.Seed+2, q)...)
 	progs = append(progs, genr.Random(genr.Ctl, nrand, c.Seed+3, q)...)
+	progs = append(progs, genr.Bystander(nrand/3, c.Seed+9)...)
+	progs = append(progs, genr.Random(genr.Panic, nrand/3, c.Seed+10, q)...)
 	c.Rep.Set("exhaustive_shapes_total", total)
 	c.Rep.Set("exhaustive_shapes_complete", complete)
 	c.Rep.Rule = "every program of the E1 streams + optimiser-directed cases (eta-reduction side conditions, user closures in the same file, loop conditions that are method values / function variables); the unoptimised stage-1 package (snapshot taken by the verif hook inside the real Compile) and the optimised package are both built and run under every tape path and history; compared: full interleaved traces stage-1 vs final; final must build whenever stage-1 builds. non-trivial = the optimiser changed the text of the program's declarations (measured); distinct = shape hash x tape."
@@ -187,9 +193,10 @@ func C03(c *Ctx) {
 	progs = append(progs, genr.Scope(n, c.Seed)...)
 	c.Rep.Rule = "programs that declare, shadow (nested blocks, if/for/switch/type-switch initialisers, range variables, case clauses), update and capture int locals from a 4-name pool at arbitrary positions relative to yields; every relevant variable read is a trace event r<id>=<value>; compared: full trace compiled vs reference coroutine under every tape path. non-trivial = >= 2 yields and the program shadows or captures; distinct = program text hash x tape."
 	RunE1(c, E1Spec{
-		Programs: progs,
-		Opts:     e1.Opts{},
-		Kinds:    []string{"CR-full", "STUB"},
+		Programs:             progs,
+		Opts:                 e1.Opts{},
+		Kinds:                []string{"CR-full", "STUB"},
+		AcceptanceViolations: true,
 		NonTrivial: func(o *e1.Outcome) bool {
 			return yields2(o) && (o.Prog.Has("shadow") || o.Prog.Has("closure-capture-across-yield") || o.Prog.Has("for-post-yield"))
 		},
@@ -210,11 +217,12 @@ func C04(c *Ctx) {
 	c.Rep.Exhaustive = keep == 0
 	c.Rep.Rule = "systematic cross product: 18 collection kinds (ASCII / multi-byte / invalid-UTF-8 / empty / reassigned strings, slices incl. nil and spare capacity, arrays, maps, channels, ints incl. 0 and negative) x 8 variable forms (none, k, k/_ , k/v, _/v with := and =) x 6 body shapes (yielding, non-yielding, inside a nested closure, break/continue, nested ranges, body updates the iteration variable) x mutation of the ranged collection at the first iteration; range expression wrapped to count evaluations; reference = Go's native range statement on the same text. Multi-entry maps compared as sorted multisets. non-trivial = >= 2 yields; distinct = program text hash x tape."
 	RunE1(c, E1Spec{
-		Programs:    progs,
-		Opts:        e1.Opts{Hist: []int{1, 3}, HistPaths: 2},
-		Kinds:       []string{"CR-full", "STUB"},
-		NonTrivial:  yields2,
-		MinDistinct: 300,
+		Programs:             progs,
+		Opts:                 e1.Opts{Hist: []int{1, 3}, HistPaths: 2},
+		Kinds:                []string{"CR-full", "STUB"},
+		AcceptanceViolations: true,
+		NonTrivial:           yields2,
+		MinDistinct:          300,
 	})
 }
 
@@ -227,11 +235,12 @@ func C05(c *Ctx) {
 	progs := append(cases.Deleg(), genr.Deleg(n, c.Seed)...)
 	c.Rep.Rule = "directed delegation cases (depth-3000 chain fully drained, recursion, partially consumed delegate, same iterator delegated twice, for-post / switch positions, generic and method generators) + PRNG call graphs over leaf / chain / tree-walk / empty / nested-literal delegates; every PRNG program also as its metamorphic twin with `for v := range it { Yield(v) }` spelled out; compared: full trace (argument evaluation events, delegate-side effects, lockstep) compiled vs reference coroutine under every tape path and truncation histories. non-trivial = >= 2 yields; distinct = program text hash x tape."
 	RunE1(c, E1Spec{
-		Programs:    progs,
-		Opts:        e1.Opts{Hist: []int{0, 1, 3, 6}, HistPaths: 3, MaxPaths: 32},
-		Kinds:       []string{"CR-full", "STUB"},
-		NonTrivial:  yields2,
-		MinDistinct: 300,
+		Programs:             progs,
+		Opts:                 e1.Opts{Hist: []int{0, 1, 3, 6}, HistPaths: 3, MaxPaths: 32},
+		Kinds:                []string{"CR-full", "STUB"},
+		AcceptanceViolations: true,
+		NonTrivial:           yields2,
+		MinDistinct:          300,
 	})
 }
 
@@ -264,11 +273,12 @@ func C18(c *Ctx) {
 	progs := append(cases.Panics(), genr.Random(genr.Panic, n, c.Seed, q)...)
 	c.Rep.Rule = "programs with explicit panics (string and error values) and implicit run-time panics (index out of range, nil map write, integer division by zero, nil func call) at PRNG-chosen statement positions, mostly guarded by a tape bit so that paths with and without the panic are explored; also in delegates, loop conditions, for-post, switch tags, closures called after a yield, two live iterators; the consumer wraps EACH call in its own recover and logs the panic at the call where it surfaced; compared: full trace (which call, which value, everything before it) compiled vs reference coroutine; nothing after the panicking call is compared. non-trivial = some path panicked; distinct = shape hash x tape."
 	RunE1(c, E1Spec{
-		Programs:    progs,
-		Opts:        e1.Opts{Hist: []int{1, 2, 3}, HistPaths: 3},
-		Kinds:       []string{"CR-full", "STUB"},
-		NonTrivial:  func(o *e1.Outcome) bool { return o.Run != nil && o.Run.PanicRuns > 0 },
-		MinDistinct: 300,
+		Programs:             progs,
+		Opts:                 e1.Opts{Hist: []int{1, 2, 3}, HistPaths: 3},
+		Kinds:                []string{"CR-full", "STUB"},
+		AcceptanceViolations: true,
+		NonTrivial:           func(o *e1.Outcome) bool { return o.Run != nil && o.Run.PanicRuns > 0 },
+		MinDistinct:          300,
 	})
 }
 
